@@ -249,6 +249,10 @@ def decVerdict (cd : Codec) (keyInvalid keyValue keyRejects : String) (upToSign 
         match model with
         | some M =>
           if P == M then .ok
+          -- reserved identity encoding `x = 0` of the Weierstrass forms: a point `(0, y)` instead of the
+          -- identity is the other reading of the same bytes (the convention is mirrored, not demanded)
+          else if cd.weierstrass && M.coords.isNone && (P.coords.map fun c => c.1.all (· == 0)) == some true then
+            .diff (renderDec C model)
           else .bad keyValue ("accepted, but the input denotes " ++ render C M ++ " observed=" ++ rhs)
         | none =>
           match inp.denotes P with
@@ -393,6 +397,14 @@ def handle (op : String) (args : List String) (rhs : String) : Verdict :=
         .bad ("scalar-fromwide-" ++ name) ("expected=ok:" ++ natToHex (beNat b % q) ++ " observed=" ++ rhs)
       else mirror (match Scalar.fromWideBytes q wide b with | some v => "ok:" ++ natToHex v | none => "reject") rhs
     | _, _, _ => .unsupported "swide args"
+  | "sred", [name, qs, bs] =>
+    match hexToNat? qs, bytesOf? bs with
+    | some q, some b =>
+      if rhs.startsWith "panic" then .bad ("scalar-panic-" ++ name) rhs else
+      -- property: the accepted string denotes `bytes mod order` (the API promises the reduction for every length)
+      if rhs.startsWith "ok:" then spec ("scalar-reduce-" ++ name) ("ok:" ++ natToHex (beNat b % q)) rhs
+      else mirror ("ok:" ++ natToHex (beNat b % q)) rhs
+    | _, _ => .unsupported "sred args"
   | _, cv :: fmt :: rest => handlePoint op cv fmt rest rhs
   | _, _ => .unsupported ("C13 op " ++ op)
 
